@@ -133,4 +133,43 @@ theorem sel_ite (f t ch) (b : Bool) (x y : List Emit) :
     sel f t ch (if b then x else y) = if b then sel f t ch x else sel f t ch y := by
   cases b <;> simp
 
+/-! ## The compiler model's derived fields agree with the policy's own notions -/
+
+theorem dns_eq_dnsActive (c : Config) : c.dns = dnsActive c := by
+  unfold Config.dns dnsActive
+  cases c.redirectDNS <;> cases c.captureAllDNS <;> cases c.dnsV4.isEmpty <;> cases c.dnsV6.isEmpty <;> rfl
+
+theorem isLoopback_eq_written (x : Cidr) : x.isLoopback = writtenAsLoopback x := by
+  unfold Cidr.isLoopback writtenAsLoopback loopbackNet4 Cidr.contains
+  cases hv : x.v6
+  · simp
+  · simp only [if_true, Bool.false_eq_true, if_false]
+    by_cases hm : (x.addr / 2 ^ 32 == 65535) = true
+    · have e : x.addr / 2 ^ 24 % 256 = x.addr % 2 ^ 32 / 2 ^ 24 := by omega
+      have hne : (x.addr == 1) = false := by
+        have : x.addr / 2 ^ 32 = 65535 := by simpa using hm
+        have : x.addr ≠ 1 := by omega
+        simpa using this
+      simp [hm, e, hne]
+    · simp [hm]
+
+theorem any_filter_split {α} (l : List α) (f g : α → Bool) :
+    l.any f = ((l.filter g).any f || (l.filter (fun x => !g x)).any f) := by
+  induction l with
+  | nil => rfl
+  | cons a t ih =>
+    by_cases hg : g a = true <;> by_cases hf : f a = true <;>
+      simp [List.any_cons, List.filter_cons, hg, hf, ih, Bool.or_assoc]
+
+theorem noLoopbackIncluded_eq (c : Config) : c.noLoopbackIncluded = !loopbackIncluded c := by
+  unfold Config.noLoopbackIncluded Config.inclV4 Config.inclV6 separate loopbackIncluded
+  cases hw : c.outIncludeAll
+  · simp only [Bool.false_eq_true, if_false, Bool.not_false, Bool.true_and]
+    have h := any_filter_split c.outInclude Cidr.isLoopback (fun x => x.v6 == true)
+    have e1 : (fun x : Cidr => !(x.v6 == true)) = (fun x => x.v6 == false) := by funext x; cases x.v6 <;> rfl
+    have e2 : (fun x : Cidr => x.isLoopback) = writtenAsLoopback := by funext x; exact isLoopback_eq_written x
+    rw [e1] at h
+    rw [← e2, h, Bool.not_or, Bool.and_comm]
+  · simp
+
 end IstioModel.C20
